@@ -31,6 +31,9 @@ pub struct Case {
     /// replay of the known finding only: report the tolerated situation
     #[serde(default)]
     pub probe_one_call_stale_parser: bool,
+    /// replay of the known finding only: report the tolerated situation
+    #[serde(default)]
+    pub probe_test_files_not_rerun: bool,
 }
 
 const GRAMMARS: &[&str] = &[
@@ -41,10 +44,15 @@ const GRAMMARS: &[&str] = &[
     "%start E\n%%\nE: E '+' T | T;\nT: 'INT' | '(' E ')';\n",
     "%start E\n%avoid_insert 'INT'\n%%\nE: E '+' T | T ;\nT: 'INT' ;\n// trailing comment\n",
 ];
-/// Variant k of the grammar; the last one declares 260 tokens, which u8 storage refuses (by panic).
+/// Variant k of the grammar; variant 6 declares 260 tokens, which u8 storage refuses (by panic);
+/// variant 7 asks for the files `*.input` next to the grammar to be parsed at build time (one-call
+/// flow only; `a.input` holds "1 + 2\n", which lexer variant 2 cannot lex).
 fn grammar_text(k: usize) -> String {
     if k < GRAMMARS.len() {
         return GRAMMARS[k].to_string();
+    }
+    if k == 7 {
+        return format!("%grmtools{{test_files: [\"*.input\"]}}\n{}", GRAMMARS[0]);
     }
     let mut s = String::from("%start E\n%token");
     for i in 0..260 {
@@ -53,7 +61,7 @@ fn grammar_text(k: usize) -> String {
     s.push_str("\n%%\nE: E '+' T | T;\nT: 'INT';\n");
     s
 }
-const NGRAMMARS: usize = 7;
+const NGRAMMARS: usize = 8;
 
 const BROKEN_GRAMMARS: &[&str] = &[
     "%start E\n%%\nE: E '+' T | T\nT: 'INT';\n",        // missing ';'
@@ -256,10 +264,10 @@ impl Prop for C18 {
         if ops.last() != Some(&Op::Build) {
             ops.push(Op::Build);
         }
-        serde_json::to_value(Case { ops, probe_one_call_stale_parser: false }).unwrap()
+        serde_json::to_value(Case { ops, probe_one_call_stale_parser: false, probe_test_files_not_rerun: false }).unwrap()
     }
     fn rule(&self) -> String {
-        "Histories of 1-8 operations (each possibly followed by Build, always ending in Build) over {EditGrammar(7 variants, one with 260 tokens that u8 storage refuses by panic), EditGrammarAtOutputTime (an edit whose file time equals that of the parser module generated before), EditLexer(6 variants, two lacking tokens some grammars use), Touch, SetOption(18 builder options incl. mod names, visibility (all variants, pub(in ..) with two different paths), edition, recoverer, yacckind, serialisation format, error_on_conflicts, warnings flags, lexer flags, strictness about tokens missing from the lexer / from the parser, the flow: two builders in turn or the one-call CTLexerBuilder::lrpar_config, grammar_path switched between two files of the same leaf name in different directories, grammar_path naming the file through a symbolic link, and the storage type u32/u16/u8 of the builders' lexer types), BreakGrammar(4 kinds: syntax error, unknown rule, broken %grmtools section, unexpected conflicts), BreakLexer, Build}. Every Build runs the real CTParserBuilder/CTLexerBuilder in a process of its own; file times come from a logical clock. Oracle after every Build: successful => parser and lexer modules byte-identical (timestamp masked) to a clean build of the same sources/settings into an empty directory; nothing changed since the last successful build => regenerated()==false and files untouched; grammar text or a parser-relevant option changed => regenerated()==true; failed => no generated file from the earlier sources left at the output path. Evaluation = one Build step. Non-trivial: a change between two builds or a failing build after a successful one; distinct by hash(history).".into()
+        "Histories of 1-8 operations (each possibly followed by Build, always ending in Build) over {EditGrammar(8 variants, one with 260 tokens that u8 storage refuses by panic, one with %grmtools{test_files} and a test input next to the grammar), EditGrammarAtOutputTime (an edit whose file time equals that of the parser module generated before), EditLexer(6 variants, two lacking tokens some grammars use), Touch, SetOption(18 builder options incl. mod names, visibility (all variants, pub(in ..) with two different paths), edition, recoverer, yacckind, serialisation format, error_on_conflicts, warnings flags, lexer flags, strictness about tokens missing from the lexer / from the parser, the flow: two builders in turn or the one-call CTLexerBuilder::lrpar_config, grammar_path switched between two files of the same leaf name in different directories, grammar_path naming the file through a symbolic link, and the storage type u32/u16/u8 of the builders' lexer types), BreakGrammar(4 kinds: syntax error, unknown rule, broken %grmtools section, unexpected conflicts), BreakLexer, Build}. Every Build runs the real CTParserBuilder/CTLexerBuilder in a process of its own; file times come from a logical clock. Oracle after every Build: successful => parser and lexer modules byte-identical (timestamp masked) to a clean build of the same sources/settings into an empty directory; nothing changed since the last successful build => regenerated()==false and files untouched; grammar text or a parser-relevant option changed => regenerated()==true; failed => no generated file from the earlier sources left at the output path. Evaluation = one Build step. Non-trivial: a change between two builds or a failing build after a successful one; distinct by hash(history).".into()
     }
     fn assumptions(&self) -> Vec<String> {
         vec!["a Touch (same bytes, newer time) may or may not regenerate".into()]
@@ -291,6 +299,7 @@ impl Prop for C18 {
         let mut ltext = LEXERS[0].to_string();
         let mut settings = Settings::new();
         for k in 0..2 {
+            std::fs::write(gps[k].parent().unwrap().join("a.input"), "1 + 2\n").unwrap();
             std::fs::write(&gps[k], &gtexts[k]).unwrap();
             set_mtime(&gps[k], clock);
             #[cfg(unix)]
@@ -408,7 +417,28 @@ impl Prop for C18 {
                             }
                         };
                         if !(cr.parser_ok && cr.lexer_ok) {
-                            o.fail("wrong", "C18/incremental-ok-clean-fails", ctx(&format!("the incremental build succeeds but a clean build of the same sources fails: {:?}", cr)));
+                            // a grammar with test_files whose parser module is served from the
+                            // cache: the test files are not parsed again although the lexer (or the
+                            // files) changed (known finding, see DESIGN.md)
+                            let test_files_skipped = r.combined && gtext.contains("test_files") && cr.lexer_error.as_deref().map(|e| e.contains("While parsing")).unwrap_or(false);
+                            if test_files_skipped && !case.probe_test_files_not_rerun {
+                                o.class("known:test-files-not-rerun-on-cached-parser");
+                                let _ = std::fs::remove_dir_all(&cdir);
+                                last_ok = None;
+                                clock += 10;
+                                if po.exists() && mtime_of(&po) != mt_p {
+                                    set_mtime(&po, clock);
+                                }
+                                if lo.exists() && mtime_of(&lo) != mt_l {
+                                    set_mtime(&lo, clock);
+                                }
+                                continue;
+                            }
+                            o.fail(
+                                "wrong",
+                                if test_files_skipped { "C18/incremental-ok-clean-fails/test-files-not-rerun" } else { "C18/incremental-ok-clean-fails" },
+                                ctx(&format!("the incremental build succeeds but a clean build of the same sources fails: {:?}", cr)),
+                            );
                             cleanup(&dir);
                             return o;
                         }
@@ -482,7 +512,9 @@ impl Prop for C18 {
                                 let cdir = dir.join(format!("pclean{step}"));
                                 std::fs::create_dir_all(&cdir).unwrap();
                                 let mut cspec = spec.clone();
-                                cspec.combined = Some(false);
+                                // (a grammar with test_files only builds in the one-call flow:
+                                // nothing else reads that key)
+                                cspec.combined = Some(gtext.contains("test_files"));
                                 cspec.strict_terms_in_lexer = Some(false);
                                 cspec.strict_tokens_in_parser = Some(false);
                                 cspec.parser_out = cdir.join("calc.y.rs").to_string_lossy().to_string();
